@@ -25,7 +25,10 @@ func VH_C04_PoolReuse() {
 		putDigester(d)
 		d2 := getBasicDigester()
 		vhAssert(d2.circleHash64 == 0, "recycled digester: first-level digest cleared")
-		vhAssert(d2.blake3Hash == emptyBlake3Hash, "recycled digester: deeper digests cleared")
+		// (compared with the zero value rather than with the library's own sentinel, so
+		// that this file keeps building if the sentinel is renamed or removed)
+		var zeroHash [4]uint64
+		vhAssert(d2.blake3Hash == zeroHash, "recycled digester: deeper digests cleared")
 		vhAssert(d2.msg == nil, "recycled digester: message cleared")
 		// a non-pooled digester is never put into the pool
 		own := &vDigester{levels: 4}
